@@ -10,7 +10,7 @@ THOROUGH_CONFIGS = ['dot']
 
 
 MANIFEST = {
-    "text": "Static sibling cross-check of the analyses: each project / standalone pair of entry points reaches one shared result function; project variants obtain their router only through RuleChangeSet::update_existing_router (clone + apply_change_set, decided by C02) or use the shared router untouched; the pipeline call sequence (from_example, match_request, from_routes_rule, status, filter_headers, create_filter_body, filter, end, should_log_request) is extracted from every analysis body and compared; the status computation of every analysis is request-time-first like the proxies (decision table of the shared helper); the hop loop bound and the loop predicate (url AND method) of the redirect-chain analysis; and count bookkeeping of removals, whose staleness surfaces in the trace counts the analyses report.",
+    "text": "Static sibling cross-check of the analyses: each project / standalone pair of entry points reaches one shared result function; project variants obtain their router only through RuleChangeSet::update_existing_router (clone + apply_change_set, decided by C02) or use the shared router untouched; the pipeline call sequence (from_example, match_request, from_routes_rule, status, filter_headers, create_filter_body, filter, end, should_log_request) is extracted from every analysis body and compared; the status computation of every analysis is request-time-first like the proxies (decision table of the shared helper); the hop loop bound and the loop predicate (url AND method) of the redirect-chain analysis; and count bookkeeping of removals, whose staleness surfaces in the trace counts the analyses report. Also: the (final, backend) status pair handed to the filters, and a chain walk that is not conditioned on a first-hop status.",
     "technique": "static analysis: call-graph reachability, call-sequence extraction and decision tables over MIR",
 }
 
